@@ -359,7 +359,6 @@ def check_small(run, cases):
             cut = dict(c, ops=c["ops"][:py_check(c["W"], c["ops"], r["lens"]) + 1])
         small = shrink(cut, oracle, raised=not r["ok"], prop_level=plevel) if len(cut["ops"]) > 1 else cut
         rr = vlib.run_impl("impl_c14.py", {"cases": [small]})["results"][0]
-        clause = d[1]
         verdict = None
         model = None
         if rr["ok"] or rr["lens"]:
@@ -384,7 +383,13 @@ def check_small(run, cases):
                 else "len %d differs from the %d distinct values inserted, within the warm-up capacity %d (C14_exact)"
                 % (rr["lens"][k], nd, small["W"]))
         else:
-            clause = "correspondence with the model (cold phase: registers = per-bucket maximum rank, len = LC(m - #touched)): " + d[1]
+            d2 = None
+            if model is not None:
+                ks2 = {len(small["ops"]) - 1} | ({rr["first_cold"]["at"]} if rr["first_cold"] else set())
+                hs2 = rr["hashes"] if oracle == "xxh" else [synth_hash(o[0], o[1], small["p"], 64 - small["p"]) for o in rr["own"]]
+                d2 = compare(small, rr, [tuple(x) for x in model], mirror(small["p"], small["W"], 64 - small["p"], hs2, small["ops"], ks2)[1])
+            clause = ("correspondence with the model (warm: exact set; cold: registers = per-bucket maximum rank, "
+                      "len = LC(m - #touched)): " + (d2 or d)[1])
         run.violation("counterexample", "C14 model/implementation correspondence", case=small,
                       impl={"lens": rr["lens"], "flags": rr["flags"], "final": rr["final"], "error": rr["error"]},
                       model=repr(model)[:3000], clause=clause, extra={"checker_verdict": verdict, "oracle": oracle,
@@ -403,6 +408,92 @@ def unb64(s, code):
     return a
 
 
+def walk_big(r, buckets, rhos):
+    """One pass over a real-size run: closed forms of the theorems + step-by-step mirror, for the oracle given as
+    per-value (bucket, rank) arrays.  Returns (violation or None, kind, statistics)."""
+    co = r["consts"]
+    p, m, W, width = co["p"], co["m"], co["warmup_size"], co["width"]
+    ids = unb64(r["ids"], "I")
+    cps = {k: (ln, fl) for k, ln, fl in r["checkpoints"]}
+    nd = 0
+    touched = set()
+    mir_cold = False
+    mir_regs = None
+    mir_zero = m
+    prev = None
+    worst = 0.0
+    n_cold_cp = n_in_window = 0
+    min_margin = None
+    viol = None
+    kind = None
+    for k, i in enumerate(ids):
+        is_new = (i == nd)
+        if is_new:
+            nd += 1
+            if rhos[i] > 0:
+                touched.add(buckets[i])
+        if not mir_cold:
+            if not (nd - (1 if is_new else 0) < W or not is_new):
+                mir_cold = True
+                mir_regs = [0] * m
+                for u in range(nd):
+                    j, rh = buckets[u], rhos[u]
+                    if mir_regs[j] == 0 and rh > 0:
+                        mir_zero -= 1
+                    if rh > mir_regs[j]:
+                        mir_regs[j] = rh
+        else:
+            j, rh = buckets[i], rhos[i]
+            if mir_regs[j] == 0 and rh > 0:
+                mir_zero -= 1
+            if rh > mir_regs[j]:
+                mir_regs[j] = rh
+        if k in cps:
+            ln, fl = cps[k]
+            # the property's own clause at the constant it names (2^18), whatever the instance says
+            if nd <= W_REAL and (fl or ln != nd) and viol is None:
+                viol, kind = (k, "C14_exact: %d distinct values inserted (<= 2^18) but len = %d, hll_flag = %s (warmup_size = %d)" % (nd, ln, fl, W)), "property"
+            if nd <= W:
+                if mir_cold:
+                    raise vlib.Broken("harness:c14-mirror", "mirror cold while nd<=W")
+                if (fl or ln != nd) and viol is None:
+                    viol, kind = (k, "C14_exact: %d distinct values inserted (<= warm-up capacity %d) but len = %d, hll_flag = %s" % (nd, W, ln, fl)), "property"
+            else:
+                z = m - len(touched)
+                if z != mir_zero:
+                    raise vlib.Broken("harness:c14-mirror", "closed form and mirror disagree at op %d" % k)
+                if (not fl or ln not in lc_accept(m, z)) and viol is None:
+                    viol, kind = (k, "C14_estimate: %d distinct values, %d empty registers, len should be in %s but is %d (hll_flag %s)"
+                                  % (nd, z, sorted(lc_accept(m, z)), ln, fl)), ("phase" if not fl else "estimate")
+                if nd <= (1 << 21):
+                    n_cold_cp += 1
+                    rel = abs(ln - nd) / nd
+                    worst = max(worst, rel)
+                    lo = m * math.exp(-1.02 * nd / m)
+                    hi = m * math.exp(-(0.98 * nd + 1) / m)
+                    if lo <= z <= hi:
+                        n_in_window += 1
+                    mg = min(z - lo, hi - z) / max(1.0, hi - lo)
+                    min_margin = mg if min_margin is None else min(min_margin, mg)
+                    if rel > 0.02 and viol is None:
+                        viol, kind = (k, "within 2%%: %d distinct values, len = %d (relative error %.4f)" % (nd, ln, rel)), "property"
+            if not is_new and prev is not None and prev[0] == k - 1 and prev[1] != ln and viol is None:
+                viol, kind = (k, "C14_dup_blind: re-adding a value seen before changed len from %d to %d (%d distinct so far)" % (prev[1], ln, nd)), "property"
+            prev = (k, ln)
+    if viol is None:
+        if r["cold"]:
+            regs = unb64(r["regs"], "B")
+            if not mir_cold or not r.get("regs_ok") or list(regs) != mir_regs:
+                viol, kind = (len(ids) - 1, "C14_regs_max: final register array differs from the per-bucket maximum rank of the inserted set"), "estimate"
+        else:
+            if mir_cold or r["set_size"] != nd or not r.get("set_ok"):
+                viol, kind = (len(ids) - 1, "warm-up set differs from the set of inserted values"), "property"
+    st = dict(ops=len(ids), distinct=nd, checkpoints=len(cps), cold_checkpoints_upto_2p21=n_cold_cp,
+              worst_relative_error=round(worst, 6), z_in_window=n_in_window,
+              min_window_margin=None if min_margin is None else round(min_margin, 4), consts=co)
+    return viol, kind, st
+
+
 def check_big(run, specs):
     out = vlib.run_impl("impl_c14.py", {"cases": [], "big": specs}, timeout=3000)
     stats = []
@@ -414,89 +505,21 @@ def check_big(run, specs):
             run.violation("counterexample", "C14 real-size run", case=case, impl=r["error"], clause="add()/len() terminates normally")
             continue
         co = r["consts"]
-        p, m, W, width = co["p"], co["m"], co["warmup_size"], co["width"]
-        ids = unb64(r["ids"], "I")
         hashes = unb64(r["hashes"], "I")
-        cps = {k: (ln, fl) for k, ln, fl in r["checkpoints"]}
-        # closed forms (theorems) + step-by-step mirror, in one pass
-        nd = 0
-        touched = set()
-        mir_cold = False
-        mir_regs = None
-        mir_zero = m
-        prev = None
-        worst = 0.0
-        n_cold_cp = n_in_window = 0
-        min_margin = None
-        viol = None
-        max_nd = 0
-        for k, i in enumerate(ids):
-            is_new = (i == nd)
-            if is_new:
-                nd += 1
-                touched.add(hashes[i] & (m - 1))
-            # mirror step
-            if not mir_cold:
-                if not (nd - (1 if is_new else 0) < W or not is_new):
-                    mir_cold = True
-                    mir_regs = [0] * m
-                    for u in range(nd):
-                        j, rh = split(hashes[u], p, width)
-                        if mir_regs[j] == 0 and rh > 0:
-                            mir_zero -= 1
-                        mir_regs[j] = max(mir_regs[j], rh)
-            else:
-                j, rh = split(hashes[i], p, width)
-                if mir_regs[j] == 0 and rh > 0:
-                    mir_zero -= 1
-                if rh > mir_regs[j]:
-                    mir_regs[j] = rh
-            if k in cps:
-                ln, fl = cps[k]
-                # C14_exact / C14_phase
-                if nd <= W:
-                    if mir_cold:
-                        raise vlib.Broken("harness:c14-mirror", "mirror cold while nd<=W")
-                    if fl or ln != nd:
-                        viol = viol or (k, "C14_exact: %d distinct values inserted (<= warm-up capacity %d) but len = %d, hll_flag = %s" % (nd, W, ln, fl))
-                else:
-                    z = m - len(touched)
-                    if z != mir_zero:
-                        raise vlib.Broken("harness:c14-mirror", "closed form and mirror disagree at op %d" % k)
-                    if not fl or ln not in lc_accept(m, z):
-                        viol = viol or (k, "C14_estimate: %d distinct values, %d empty registers, len should be in %s but is %d (hll_flag %s)"
-                                        % (nd, z, sorted(lc_accept(m, z)), ln, fl))
-                    if nd <= (1 << 21):
-                        n_cold_cp += 1
-                        rel = abs(ln - nd) / nd
-                        worst = max(worst, rel)
-                        lo = m * math.exp(-1.02 * nd / m)
-                        hi = m * math.exp(-(0.98 * nd + 1) / m)
-                        if lo <= z <= hi:
-                            n_in_window += 1
-                        mg = min(z - lo, hi - z) / max(1.0, hi - lo)
-                        min_margin = mg if min_margin is None else min(min_margin, mg)
-                        if rel > 0.02:
-                            viol = viol or (k, "within 2%%: %d distinct values, len = %d (relative error %.4f)" % (nd, ln, rel))
-                # C14_dup_blind on adjacent checkpoints
-                if not is_new and prev is not None and prev[0] == k - 1 and prev[1] != ln:
-                    viol = viol or (k, "C14_dup_blind: re-adding a value seen before changed len from %d to %d (%d distinct so far)" % (prev[1], ln, nd))
-                prev = (k, ln)
-                max_nd = nd
-        # final state
-        if viol is None:
-            if r["cold"]:
-                regs = unb64(r["regs"], "B")
-                if not mir_cold or not r.get("regs_ok") or list(regs) != mir_regs:
-                    viol = (len(ids) - 1, "C14_regs_max: final register array differs from the per-bucket maximum rank of the inserted set")
-            else:
-                if mir_cold or r["set_size"] != nd or not r.get("set_ok"):
-                    viol = (len(ids) - 1, "warm-up set differs from the set of inserted values")
-        st = dict(spec=spec, ops=len(ids), distinct=nd, checkpoints=len(cps), cold_checkpoints_upto_2p21=n_cold_cp,
-                  worst_relative_error=round(worst, 6), z_in_window=n_in_window, min_window_margin=None if min_margin is None else round(min_margin, 4),
-                  consts=co)
+        sp = [split(h, co["p"], co["width"]) for h in hashes]
+        viol, kind, st = walk_big(r, [a for a, _ in sp], [b for _, b in sp])
+        if viol is not None and kind == "estimate" and r.get("own_buckets"):
+            ob, orh = unb64(r["own_buckets"], "I"), unb64(r["own_rhos"], "B")
+            if (list(ob), list(orh)) != ([a for a, _ in sp], [b for _, b in sp]) and all(x > 0 for x in orh):
+                v2, k2, st2 = walk_big(r, ob, orh)
+                if v2 is None:
+                    viol, st = None, st2
+                    st["oracle"] = "implementation's own _hasher_update (not xxh32(seed=p) of the value bytes)"
+                    run.notes.append("real-size run %s agrees with the closed forms only under the oracle read off the "
+                                     "implementation's own _hasher_update (another hash function: allowed)" % json.dumps(spec))
+        st["spec"] = spec
         stats.append(st)
-        run.count_case(spec, nd > W)
+        run.count_case(spec, st["distinct"] > co["warmup_size"])
         if viol is not None:
             ok_all = False
             run.violation("counterexample", "C14 real-size run vs closed forms of the model", case=case,
